@@ -25,6 +25,7 @@ import functools
 _REC = [None]
 _INSTALLED = [False]
 NONE = -1          # iod_start_time is None
+OFFGRID = -2       # a time that is not a step epoch
 
 
 def T(i):
@@ -49,10 +50,15 @@ class LifeRecorder:
         self.events.append(kw)
 
     def idx(self, t):
-        return NONE if t is None else int(round(float(t) / self.dt))
+        """scenario time -> step index; OFFGRID when it is not a step epoch (to 1 ms)."""
+        if t is None:
+            return NONE
+        q = float(t) / self.dt
+        return int(round(q)) if abs(q - round(q)) * self.dt < 1e-3 else OFFGRID
 
     def jidx(self, jd):
-        return int(round((float(jd) - self.jd0) * 86400.0 / self.dt))
+        q = (float(jd) - self.jd0) * 86400.0 / self.dt
+        return int(round(q)) if abs(q - round(q)) * self.dt < 1e-2 else OFFGRID     # Julian dates resolve ~1e-5 s
 
     def pend(self, agent):
         return [self.jidx(m.julian_date) for m in agent._detected_maneuvers]  # noqa: SLF001
